@@ -48,6 +48,45 @@ def _scan(trace_path, out_path):
     return acc, cut, bad
 
 
+KF4 = 'abort-after-identity-change-stale-generation'
+
+
+def _one(binp, seed, keep=None):
+    cmd = [binp, 'one', '--case-seed', str(seed)] + (['--keep', ','.join(map(str, keep))] if keep is not None else [])
+    rc, out, _ = sh(cmd, timeout=120)
+    return out
+
+
+def shrink_oracle_case(binp, seed, key):
+    """greedy: drop history ops (last first) while the oracle still reports the same key; returns (kept indices, output)"""
+    out = _one(binp, seed)
+    ops = [int(x) for x in re.findall(r'^op#(\d+) ', out, re.M)]
+    if ('key=%s ' % key) not in out:
+        return None, out
+    keep = list(ops)
+    for i in reversed(ops):
+        cand = [j for j in keep if j != i]
+        o = _one(binp, seed, cand)
+        if ('key=%s ' % key) in o:
+            keep, out = cand, o
+    return keep, out
+
+
+def oracle_failures(ctx, binp, out, tag):
+    """STRUCTS-FAIL lines -> Failure('oracle', …) with a replay that `./check C06 --replay` re-runs (first two cases per key)"""
+    fails, per_key = [], {}
+    for (case, seed, key, what) in re.findall(r'STRUCTS-FAIL case=(\d+) seed=(\d+) key=(\S+) (.*)', out):
+        per_key[key] = per_key.get(key, 0) + 1
+        if per_key[key] > (1 if key == KF4 else 2):
+            continue
+        keep, o = (None, _one(binp, seed)) if key == KF4 else shrink_oracle_case(binp, seed, key)
+        text = 'structs-oracle case-seed=%s keep=%s key=%s\n%s' % (seed, 'all' if keep is None else ','.join(map(str, keep)), key, o)
+        rp = ctx.save_replay('structs-%s-%s-seed%s.txt' % (tag, key, seed), text)
+        nops = len(re.findall(r'^op#\d+ ', o, re.M))
+        fails.append(Failure('oracle', 'structs case %s (seed %s): %s: %s (history of %d ops)' % (case, seed, key, what[:300], nops), replay=rp, key=key))
+    return fails, per_key
+
+
 def run_structs(ctx, cases, seed_offset=0, corpus=True):
     t = Tie('structs-trace')
     t.rule = ('struct-heavy generated programs x histories (`vh structs run`, SplitMix64 from VERIF_SEED): 1-3 creators '
@@ -56,9 +95,13 @@ def run_structs(ctx, cases, seed_offset=0, corpus=True):
               'readers, input writes with durabilities, injected panics (tracked-field PartialEq, event callback, body), '
               'free-list ageing towards the generation limit, reads through handles leaked across revisions; every case runs on '
               'real salsa with the `ts` hook class on and its trace is replayed by `svdriver structs`; traces_validated = cases '
-              'whose every line was accepted with inv=ok; distinct = distinct ts-line sequences')
+              'whose every line was accepted with inv=ok; distinct = distinct ts-line sequences. Property oracle on the real results '
+              '(independent of the hooks): ids of one execution pairwise distinct and never handed out for another struct '
+              '(duplicate-id), fields read back through the handle = the values passed to `new` (readback), reader / creator results = '
+              'reference interpreter on the current inputs (value), struct-keyed memo after `new` = reference (stale-memo), same '
+              'identity in the same order keeps its id across executions (id-changed); verdicts after the kf4 pattern carry its key')
     binp = ctx.cargo_bin('structs')
-    hist, total_bad, cut_total = {}, 0, {}
+    hist, total_bad, cut_total, oracle_keys = {}, 0, {}, {}
     done, chunk_no = 0, 0
     # hand-checked corpus traces first
     cdir = os.path.join(ROOT, 'corpus', 'structs')
@@ -79,6 +122,16 @@ def run_structs(ctx, cases, seed_offset=0, corpus=True):
             raise HarnessError('structs run failed (rc=%d): %s' % (rc, out[-1500:]))
         t.evaluations += int(m.group(1))
         t.distinct_nontrivial += int(m.group(2))
+        ms = re.search(r'STRUCTS-SUMMARY cases=(\d+) failures=(\d+) by_key: (.*)', out)
+        if not ms:
+            raise HarnessError('structs run gave no oracle summary: ' + out[-800:])
+        if int(ms.group(2)) > 0:
+            fs, per_key = oracle_failures(ctx, binp, out, 'chunk%d' % chunk_no)
+            known = set(f.key for f in t.failures)
+            t.failures += [f for f in fs if not (f.key == KF4 and KF4 in known)]
+            for kv in ms.group(3).split():
+                k, v = kv.rsplit('=', 1)
+                oracle_keys[k] = oracle_keys.get(k, 0) + int(v)
         for kv in m.group(5).split():
             k, v = kv.split('=')
             hist[k] = hist.get(k, 0) + int(v)
@@ -110,6 +163,7 @@ def run_structs(ctx, cases, seed_offset=0, corpus=True):
     if ncut * 100 > 3 * max(t.evaluations, 1):
         t.failures.append(Failure('model', 'the Lean driver `structs` cut %d of %d cases short as unmodelled (%s): more than 3%%, the traces no longer '
                                   'look like the modelled protocol' % (ncut, t.evaluations, cut_total)))
+    t.info['oracle_failing_cases_by_key'] = oracle_keys
     t.info['events'] = hist
     t.info['cases_cut_short_as_unmodelled'] = cut_total
     return t
@@ -137,6 +191,16 @@ def replay_trace_file(ctx, t, trace_path, tag):
     else:
         os.remove(trace_path)
         os.remove(outp)
+
+
+def replay_structs_oracle(ctx, path):
+    """`./check C06 --replay FILE`: FILE starts with `structs-oracle case-seed=<x> keep=<all|i,j,…> key=<key>`"""
+    m = re.match(r'structs-oracle case-seed=(\d+) keep=(\S+) key=(\S+)', open(path).readline())
+    binp = ctx.cargo_bin('structs')
+    keep = None if m.group(2) == 'all' else [int(x) for x in m.group(2).split(',') if x]
+    out = _one(binp, m.group(1), keep)
+    print(out)
+    return 1 if 'STRUCTS-FAIL' in out else 0
 
 
 def replay_structs(ctx, path):
